@@ -32,9 +32,23 @@ fn err_class(k: &str) -> &'static str {
 
 /// abs(s) on a Memfs whose cwd is `cwd`, against the reference
 pub fn check_abs(cwd: &str, s: &str, env: &Env, also_stdfs: bool) -> CaseResult {
+    check_abs_x(cwd, false, s, env, also_stdfs)
+}
+
+/// With `cwd_is_link` the current directory is entered through a symlink to a directory elsewhere: the
+/// resolution stays a lexical join onto whatever cwd() reports
+pub fn check_abs_x(cwd: &str, cwd_is_link: bool, s: &str, env: &Env, also_stdfs: bool) -> CaseResult {
     let m = Memfs::new();
-    let _ = m.mkdir_p(cwd);
+    if cwd_is_link && cwd != "/" {
+        let _ = m.mkdir_p("/zz/t/u");
+        let _ = m.mkdir_p(parent(cwd));
+        let _ = m.symlink(cwd, "/zz/t/u");
+    } else {
+        let _ = m.mkdir_p(cwd);
+    }
     let _ = m.set_cwd(cwd);
+    let cwd_now = m.cwd().ok().and_then(|p| p.to_str().map(|x| x.to_string())).unwrap_or_else(|| cwd.to_string());
+    let cwd = cwd_now.as_str();
     let got = match catch(|| m.abs(s)) {
         Ok(r) => r,
         Err(p) => return Err(Failure::new(format!("abs|panic|{}", panic_site(&p)), format!("abs({:?}) from {:?} panicked: {}", s, cwd, p))),
@@ -296,7 +310,7 @@ fn op_templates() -> Vec<Op> {
 }
 
 pub fn run(c: &Ctx) {
-    c.set_rule("(a) abs(): every string over {'/','.','~','$',':','a','é'} up to length 5 (quick) / 6 (thorough) x cwd in {/, /a, /a/b, /a/b/c} on Memfs with HOME=<sandbox>, V1 set, V2 empty, plus seeded random strings <=40 symbols with protocols in mixed case, braces and multi-byte names; the same strings on Stdfs vs a Memfs whose cwd equals the process cwd (a deep tmpfs directory), and 12 (quick) / 60 (thorough) environments (HOME unset/empty/'/h'/'/h/e//'/'rel', two variables) x cwd {/, /dev, sandbox} in child processes for both backends. Oracle: reference abs (trim protocol -> expand -> Go-Clean -> lexical join onto cwd): value, absolute+clean form, idempotence, independence from filesystem content, error iff empty / invalid expansion / '..' above root (kind class), backends equal. (b) spelling independence: 3 scenarios x every path x every call form (all single-path forms, copy/move both argument positions, symlink link position, copy_b) x 14 spellings (absolute with a variable inside, relative, './', doubled separators + trailing '/', detour through a missing name, '~/', '$V1/', '${V1}/./', 'file://', 'HTTPS://', '../<cwd>/', trailing '/.'): the call with the respelled path and the call with abs(path) run on two fresh replicas must give the same result and the same tree; on Memfs and on a tmpfs Stdfs sandbox. Non-trivial = (a) string with >=2 distinct special characters, (b) spelling != canonical; distinct by case.");
+    c.set_rule("(a) abs(): every string over {'/','.','~','$',':','a','é'} up to length 5 (quick) / 6 (thorough) x cwd in {/, /a, /a/b, /a/b/c} and cwd entered through a symlink to a directory ({/a/b, /l} -> /zz/t/u) on Memfs with HOME=<sandbox>, V1 set, V2 empty, plus seeded random strings <=40 symbols with protocols in mixed case, braces and multi-byte names; the same strings on Stdfs vs a Memfs whose cwd equals the process cwd (a deep tmpfs directory), and 12 (quick) / 60 (thorough) environments (HOME unset/empty/'/h'/'/h/e//'/'rel', two variables) x cwd {/, /dev, sandbox} in child processes for both backends. Oracle: reference abs (trim protocol -> expand -> Go-Clean -> lexical join onto cwd): value, absolute+clean form, idempotence, independence from filesystem content, error iff empty / invalid expansion / '..' above root (kind class), backends equal. (b) spelling independence: 3 scenarios x every path x every call form (all single-path forms, copy/move both argument positions, symlink link position, copy_b) x 14 spellings (absolute with a variable inside, relative, './', doubled separators + trailing '/', detour through a missing name, '~/', '$V1/', '${V1}/./', 'file://', 'HTTPS://', '../<cwd>/', trailing '/.'): the call with the respelled path and the call with abs(path) run on two fresh replicas must give the same result and the same tree; on Memfs and on a tmpfs Stdfs sandbox. Non-trivial = (a) string with >=2 distinct special characters, (b) spelling != canonical; distinct by case.");
     c.assume("'does no IO' is checked behaviourally (same answer before/after the path exists); symlink's second argument is documented as relative to the link, it is not respelled");
     // one deep sandbox directory is cwd, HOME and $V1 for the whole run
     let base = crate::sandbox::dir("c05");
@@ -340,6 +354,12 @@ pub fn run(c: &Ctx) {
             c.eval(1);
             c.judge("abs", &json!([cwd, s]), check_abs(cwd, s, &env, false));
         }
+        // the cwd entered through a link to a directory
+        for cwd in ["/a/b", "/l"] {
+            c.eval(1);
+            c.class("abs:cwd-is-a-link");
+            c.judge("abs-linkcwd", &json!([cwd, s]), check_abs_x(cwd, true, s, &env, false));
+        }
         c.eval(1);
         c.judge("abs-both", &json!([base_s, s]), check_abs(&base_s, s, &env, true));
         let specials: std::collections::BTreeSet<char> = s.chars().filter(|ch| "/.~$:".contains(*ch)).collect();
@@ -364,6 +384,7 @@ pub fn run(c: &Ctx) {
             c.class("random:with-protocol-or-expansion");
         }
         check_abs(cwds[*ci], s, &env2, false)?;
+        check_abs_x(cwds[*ci], true, s, &env2, false)?;
         check_abs(&base_s, s, &env2, true)
     });
     // child environments
@@ -497,6 +518,10 @@ pub fn replay(kind: &str, case: &Value) -> Option<CaseResult> {
                 return Some(check_abs(["/", "/a", "/a/b", "/a/b/c"][a[1].as_u64()? as usize % 4], s, &env_now(), false));
             }
             Some(check_abs(&cwd, &s, &env_now(), false))
+        },
+        "abs-linkcwd" => {
+            let a = case.as_array()?;
+            Some(check_abs_x(a[0].as_str()?, true, a[1].as_str()?, &env_now(), false))
         },
         "abs-home-seq" => Some(Ok(())), // needs the whole HOME sequence: re-run the check itself
         "abs-child" => {
